@@ -20,7 +20,8 @@ RULE = ("(a) mappings word-like key -> non-empty list of non-empty strings over 
         "or whitespace character; (b) every string over the alphabet {; = SP \" , a % 1} up to length 6 (quick) / 9 "
         "(thorough) through the inferring parser, up to length 4 through every supplied dialect, random strings to length "
         "200; non-trivial = contains a structural character; distinct by mapping+dialect / by string")
-REQUIRED = ["(a) same text parsed again after the dialect object was edited in place", "(b) long-run strings parsed under a watchdog", "(a) round trips under a dialect whose flags are truthy/falsy non-bool values",
+REQUIRED = ["(a) round trips under a gff3 dialect with the leading-semicolon flag set", "(a) round trips with link-shaped values holding reserved characters",
+            "(a) same text parsed again after the dialect object was edited in place", "(b) long-run strings parsed under a watchdog", "(a) round trips under a dialect whose flags are truthy/falsy non-bool values",
             "interludes with ignore_url_escape_characters switched on and restored", "(a) print/parse round trips", "(b) strings parsed (inferred)", "(b) strings parsed (supplied dialect)",
             "_reconstruct contract evaluations"]
 ASSUMPTIONS = [
@@ -377,6 +378,17 @@ def run(ctx):
             m[rng.randrange(len(m))][1][0] = "".join(rng.choice(long_chars + ["a"]) for _ in range(rng.choice([255, 256, 257, 300, 700])))
         case = {"kind": "roundtrip", "dialect": d, "mapping": m,
                 "extra": ["x y"] if rng.random() < 0.1 else [], "keep_order": rng.random() < 0.4}
+        if d["fmt"] == "gff3" and rng.random() < 0.12:
+            # a GFF3-style dialect that also says 'leading semicolon' (the printer never writes one; the flag must not
+            # change how a GFF3 column is read)
+            d = dict(d, **{"leading semicolon": True})
+            case["dialect"] = d
+            ctx.mon("(a) round trips under a gff3 dialect with the leading-semicolon flag set")
+        if d["fmt"] != "gtf" and rng.random() < 0.06:
+            # values that are links: text like any other, reserved characters inside them included
+            kv = m[rng.randrange(len(m))]
+            kv[1][0] = rng.choice(["http://", "https://", "ftp://"]) + "example.org/lookup?db=a" + rng.choice([";id=7", ",b", "&x=%41", "\tq", "\nq", ";", "=="]) + kv[1][0][:6]
+            ctx.mon("(a) round trips with link-shaped values holding reserved characters")
         if rng.random() < 0.05:
             # the dialect's flags given as truthy / falsy values that are not the objects True and False
             t, f_ = rng.choice([(1, 0), ("yes", ""), (2.0, 0.0), ([1], [])])
